@@ -80,6 +80,8 @@ def write_cfg(overrides, name=None):
             out.append(line)
     for k, v in overrides.items():
         if k not in seen:
+            # (a key of two words, such as "ions FE", re-defines a table row: the line is appended at the end of
+            # the copy, after the shipped definition - the way parameter files are usually made)
             out.append(form(k, v))
     name = name or "cfg-" + "-".join("%s%s" % (k[:6], v) for k, v in sorted(overrides.items())) + ".cfg"
     path = os.path.join(worker_tmp(), name)
